@@ -207,13 +207,13 @@ func callBuiltin(caller *frame, fn *ssa.Builtin, args []value) value {
 		p := args[0].(*value)
 		org, ok := in.side.origin[p]
 		if !ok {
-			panic(unsupported{"unsafe.String: pointer of unknown origin"})
+			panic(unsupported{reason: "unsafe.String: pointer of unknown origin"})
 		}
 		if int64(len(org)) < n {
 			// capacity covers
 			org = org[:cap(org)]
 			if int64(len(org)) < n {
-				panic(unsupported{"unsafe.String beyond backing array"})
+				panic(unsupported{reason: "unsafe.String beyond backing array"})
 			}
 		}
 		out := make(sstr, n)
@@ -247,13 +247,13 @@ func callBuiltin(caller *frame, fn *ssa.Builtin, args []value) value {
 		if !ok {
 			if n == 1 {
 				// single-object slice
-				panic(unsupported{"unsafe.Slice over a single object"})
+				panic(unsupported{reason: "unsafe.Slice over a single object"})
 			}
-			panic(unsupported{"unsafe.Slice: pointer of unknown origin"})
+			panic(unsupported{reason: "unsafe.Slice: pointer of unknown origin"})
 		}
 		org = org[:cap(org)]
 		if int64(len(org)) < n {
-			panic(unsupported{"unsafe.Slice beyond backing array"})
+			panic(unsupported{reason: "unsafe.Slice beyond backing array"})
 		}
 		return org[:n:n]
 
@@ -261,7 +261,7 @@ func callBuiltin(caller *frame, fn *ssa.Builtin, args []value) value {
 		return unsafeAdd(in, args[0].(uptr), in.concInt(args[1]))
 	}
 
-	panic(unsupported{"built-in: " + fn.Name()})
+	panic(unsupported{reason: "built-in: " + fn.Name()})
 }
 
 func rangeIter(x value) iter {
@@ -292,7 +292,7 @@ func conv(in *interpreter, tDst, tSrc types.Type, x value) value {
 			if x == 0 {
 				return uptr{}
 			}
-			panic(unsupported{"uintptr -> unsafe.Pointer"})
+			panic(unsupported{reason: "uintptr -> unsafe.Pointer"})
 		}
 	}
 	if b, ok := utSrc.(*types.Basic); ok && b.Kind() == types.UnsafePointer {
@@ -308,7 +308,7 @@ func conv(in *interpreter, tDst, tSrc types.Type, x value) value {
 				if p, ok := u.p.(*value); ok && p == nil {
 					return uintptr(0)
 				}
-				panic(unsupported{"unsafe.Pointer -> uintptr"})
+				panic(unsupported{reason: "unsafe.Pointer -> uintptr"})
 			}
 		}
 	}
@@ -318,7 +318,7 @@ func conv(in *interpreter, tDst, tSrc types.Type, x value) value {
 		if b, ok := utDst.(*types.Basic); ok && b.Info()&types.IsFloat != 0 {
 			return x
 		}
-		panic(unsupported{"float: conversion of an opaque float"})
+		panic(unsupported{reason: "float: conversion of an opaque float"})
 	case *sym:
 		return symConv(tDst, tSrc, x)
 	case sstr:
@@ -334,7 +334,7 @@ func conv(in *interpreter, tDst, tSrc types.Type, x value) value {
 				return out
 			}
 		}
-		panic(unsupported{fmt.Sprintf("conversion of symbolic string to %s", tDst)})
+		panic(unsupported{reason: fmt.Sprintf("conversion of symbolic string to %s", tDst)})
 	case []value:
 		if d, ok := utDst.(*types.Basic); ok && d.Kind() == types.String {
 			if s, ok := utSrc.(*types.Slice); ok {
